@@ -246,6 +246,16 @@ def grounds(ctx, fn, N, R3="C03.3"):
     tn = "((let v1::Some($)=%s&&let v1::Some($)=%s)&&(%s@v1::Some.0==%s@v1::Some.0))" % (ZA, ZB, ZA, ZB)
     ctx.expect(tn in t, R3, "ground/same-generic-name-index", fn["sp"], "field types named by a generic parameter are equal iff both names resolve to the same parameter index",
                "the type-name ground of compare_fields changed")
+    # .. and that ground is only used when BOTH fields have a recorded type name and BOTH field types are generic parameters of their own
+    # type (by id); in every other case the two field types are compared structurally
+    IA = "GenericsList::index_for_type_id(C1_1,C2_0.0.ty.id)"
+    IB = "GenericsList::index_for_type_id(C1_3,C2_0.1.ty.id)"
+    field = ("((C2_0.0.name==C2_0.1.name)&&if((let (v1::Some($),v1::Some($))=(C2_0.0.type_name,C2_0.1.type_name)&&(let v1::Some($)=%s&&let v1::Some($)=%s))){%s}"
+             "else{utils::types_equal_inner(C2_0.0.ty.id,C1_1,C2_0.1.ty.id,C1_3,P4,P5)})") % (IA, IB, tn)
+    ctx.expect(field in t, R3, "ground/field-comparison", fn["sp"],
+               "two fields are equal iff their names are equal and - when both carry a type name and both types are generic parameters of their own type - the "
+               "names resolve to the same parameter index, otherwise iff the field types are equal structurally (each side with its own generics)",
+               "the per-field comparison of compare_fields changed (guard of the type-name ground, or the structural fallback)")
 
 
 def grouping(ctx):
